@@ -113,6 +113,14 @@ func canon(v ssa.Value, onPhi map[ssa.Value]bool, cross bool) ssa.Value {
 			if x.Op != token.MUL {
 				return v
 			}
+			if fa, isFA := x.X.(*ssa.FieldAddr); isFA {
+				// a field of a local struct variable whose address never leaves the
+				// function (and its closures) and that is stored exactly once
+				if fv := localStructFieldValue(fa); fv != nil {
+					v = fv
+					continue
+				}
+			}
 			if fa, isFA := x.X.(*ssa.FieldAddr); isFA && cross {
 				// a field of a small state struct built once (composite literal) and never
 				// written again: the value it was built with
@@ -338,6 +346,28 @@ func DependsOn(v ssa.Value, pred func(ssa.Value) bool) bool {
 				}
 			}
 		}
+		// a field read from a local struct variable: what was stored into that field, or
+		// into the variable as a whole
+		if u, ok := v.(*ssa.UnOp); ok && u.Op == token.MUL {
+			if fa, isFA := u.X.(*ssa.FieldAddr); isFA {
+				if al, isAl := cellOf(fa.X).(*ssa.Alloc); isAl && al.Referrers() != nil {
+					for _, s := range AllStores(al) {
+						if walk(s.Val, depth+1) {
+							return true
+						}
+					}
+					for _, r := range *al.Referrers() {
+						if f2, ok := r.(*ssa.FieldAddr); ok && f2.Field == fa.Field && f2.Referrers() != nil {
+							for _, rr := range *f2.Referrers() {
+								if st, ok := rr.(*ssa.Store); ok && st.Addr == ssa.Value(f2) && walk(st.Val, depth+1) {
+									return true
+								}
+							}
+						}
+					}
+				}
+			}
+		}
 		// variadic / literal slices: the elements stored into the backing array
 		if sl, ok := v.(*ssa.Slice); ok {
 			if al, ok := sl.X.(*ssa.Alloc); ok && al.Referrers() != nil {
@@ -397,6 +427,12 @@ func sameExpr(a, b ssa.Value, d int) bool {
 					}
 				}
 			}
+		}
+	}
+	// the same element of the same slice / array
+	if ia, ok := ca.(*ssa.IndexAddr); ok {
+		if ib, ok := cb.(*ssa.IndexAddr); ok {
+			return sameExpr(ia.X, ib.X, d+1) && sameExpr(ia.Index, ib.Index, d+1)
 		}
 	}
 	ra, oka := FieldLoadOf(ca)
@@ -654,10 +690,54 @@ func SymString(v ssa.Value) (parts []SymPart, ok bool) {
 				return
 			}
 		}
+		// a string-building helper of the repository with one return statement: its
+		// result, with the parameters standing for the arguments of this call
+		if call, isCall := c.(*ssa.Call); isCall && depth < 6 {
+			if g := call.Call.StaticCallee(); g != nil && InRepo(g) && len(g.Blocks) > 0 && g.Signature.Results().Len() == 1 {
+				if b, isB := g.Signature.Results().At(0).Type().Underlying().(*types.Basic); isB && b.Info()&types.IsString != 0 {
+					var rets []*ssa.Return
+					Instrs(g, func(in ssa.Instruction) {
+						if r, isRet := in.(*ssa.Return); isRet {
+							rets = append(rets, r)
+						}
+					})
+					if len(rets) == 1 {
+						bind := Binding{}
+						for i, p := range g.Params {
+							if i < len(call.Call.Args) {
+								bind[p] = call.Call.Args[i]
+							}
+						}
+						undo := Bind(bind)
+						walk(ReturnValues(rets[0])[0], depth+1)
+						undo()
+						return
+					}
+				}
+			}
+		}
 		add(SymPart{Val: c})
 	}
 	walk(v, 0)
 	return parts, ok
+}
+
+// SymFormat renders the symbolic value of a string expression as a format string: the
+// literal parts with "%s" for every opaque part (a literal '%' is doubled).
+func SymFormat(v ssa.Value) (string, bool) {
+	parts, ok := SymString(v)
+	if !ok {
+		return "", false
+	}
+	out := ""
+	for _, p := range parts {
+		if p.Val != nil {
+			out += "%s"
+		} else {
+			out += strings.ReplaceAll(p.Lit, "%", "%%")
+		}
+	}
+	return out, true
 }
 
 // ---------------------------------------------------------------------------------
@@ -770,6 +850,99 @@ func constructedFieldValue(fa *ssa.FieldAddr, onPhi map[ssa.Value]bool) ssa.Valu
 	}
 	st, ok := named.Underlying().(*types.Struct)
 	if !ok || fieldWritersOutsideLiterals(named, st.Field(fa.Field).Name()) {
+		return nil
+	}
+	return val
+}
+
+// localStructFieldValue: fa addresses a field of a struct held in a local variable (an
+// Alloc of this function, possibly captured by its closures) that is only ever accessed
+// field by field; when that field has exactly one store, its value.
+func localStructFieldValue(fa *ssa.FieldAddr) ssa.Value {
+	al, ok := cellOf(fa.X).(*ssa.Alloc)
+	if !ok {
+		return nil
+	}
+	pt, ok := al.Type().Underlying().(*types.Pointer)
+	if !ok {
+		return nil
+	}
+	if _, isStruct := pt.Elem().Underlying().(*types.Struct); !isStruct {
+		return nil
+	}
+	var val ssa.Value
+	n := 0
+	okAll := true
+	var visit func(v ssa.Value)
+	visit = func(v ssa.Value) {
+		rs := v.Referrers()
+		if rs == nil {
+			return
+		}
+		for _, r := range *rs {
+			switch r := r.(type) {
+			case *ssa.FieldAddr:
+				if r.X != v {
+					okAll = false
+					continue
+				}
+				if r.Referrers() == nil {
+					continue
+				}
+				for _, rr := range *r.Referrers() {
+					switch u := rr.(type) {
+					case *ssa.Store:
+						if u.Addr != ssa.Value(r) {
+							okAll = false // the field's address is stored somewhere
+						} else if r.Field == fa.Field {
+							n++
+							val = u.Val
+						}
+					case *ssa.UnOp, *ssa.DebugRef:
+					case *ssa.FieldAddr, *ssa.IndexAddr:
+						// nested aggregate: only this rule's own field matters
+						if r.Field == fa.Field {
+							okAll = false
+						}
+					case *ssa.Call, *ssa.Go, *ssa.Defer:
+						// a method called on the field's address (atomic field, mutex): the
+						// field's value is not a plain stored value
+						if r.Field == fa.Field {
+							okAll = false
+						}
+					default:
+						if r.Field == fa.Field {
+							okAll = false
+						}
+					}
+				}
+			case *ssa.MakeClosure:
+				fn, isFn := r.Fn.(*ssa.Function)
+				if !isFn {
+					okAll = false
+					continue
+				}
+				for i, b := range r.Bindings {
+					if b == v {
+						visit(fn.FreeVars[i])
+					}
+				}
+			case *ssa.DebugRef:
+			case *ssa.UnOp:
+				// a copy of the whole struct is a read
+			case *ssa.Store:
+				if r.Addr == v {
+					okAll = false // whole-struct assignment
+				} else {
+					okAll = false // the address escapes
+				}
+			default:
+				okAll = false
+			}
+		}
+	}
+	visit(al)
+	if !okAll || n != 1 {
 		return nil
 	}
 	return val
